@@ -545,7 +545,24 @@ var duelOps = []struct {
 	{"DeleteMode(x)", func(w *world, x, y string) bool { _ = w.m.DeleteMode(x); return false }},
 	{"DeleteMode(y)", func(w *world, x, y string) bool { _ = w.m.DeleteMode(y); return false }},
 	{"server.DeleteMode(x,allowMissing)", func(w *world, x, y string) bool {
-		_, _ = w.srv.DeleteMode(ctx, &electricpb.DeleteModeRequest{Name: "n", Id: x, AllowMissing: true})
+		_, err := w.srv.DeleteMode(ctx, &electricpb.DeleteModeRequest{Name: "n", Id: x, AllowMissing: true})
+		if status.Code(err) == codes.NotFound {
+			// whoever else removes the mode meanwhile: with allow-missing an absent mode is a success
+			w.respErr.CompareAndSwap(nil, fmt.Sprintf("server.DeleteMode(%s, allow_missing=true) answered NotFound: %v", x, err))
+		}
+		return false
+	}},
+	{"server.DeleteMode(y,allowMissing)", func(w *world, x, y string) bool {
+		_, err := w.srv.DeleteMode(ctx, &electricpb.DeleteModeRequest{Name: "n", Id: y, AllowMissing: true})
+		if status.Code(err) == codes.NotFound {
+			w.respErr.CompareAndSwap(nil, fmt.Sprintf("server.DeleteMode(%s, allow_missing=true) answered NotFound: %v", y, err))
+		}
+		return false
+	}},
+	{"DeleteMode(x,allowMissing)", func(w *world, x, y string) bool {
+		if err := w.m.DeleteMode(x, resource.WithAllowMissing(true)); status.Code(err) == codes.NotFound {
+			w.respErr.CompareAndSwap(nil, fmt.Sprintf("DeleteMode(%s, allow-missing) answered NotFound: %v", x, err))
+		}
 		return false
 	}},
 	{"ChangeActiveMode(x)", func(w *world, x, y string) bool { _, err := w.m.ChangeActiveMode(x); return err == nil }},
@@ -603,6 +620,103 @@ func spin(n int) {
 // TestElectricDuels: two (or three) calls released at the same instant on a fresh model, many rounds per drawn pair
 // with a sweep of start skews, invariants checked at quiescence after every round. It aims at check-then-act windows
 // between the calls that the random scripts of TestElectricConcurrent only hit by luck.
+// runDuel plays rounds of one duel; it returns a description of the first problem.
+func runDuel(xNormal, yNormal bool, startActive string, ops []int, rounds int) (desc string, err error) {
+	var names []string
+	for _, o := range ops {
+		names = append(names, duelOps[o].name)
+	}
+	desc = fmt.Sprintf("x(normal=%v) y(normal=%v) active=%q duel %s", xNormal, yNormal, startActive, strings.Join(names, " || "))
+	for r := 0; r < rounds; r++ {
+		w := newWorld()
+		if err := w.m.AddMode(&traits.ElectricMode{Id: "x", Normal: xNormal}); err != nil {
+			return desc, err
+		}
+		if err := w.m.AddMode(&traits.ElectricMode{Id: "y", Normal: yNormal}); err != nil {
+			return desc, err
+		}
+		if startActive != "" {
+			if _, err := w.m.ChangeActiveMode(startActive); err != nil {
+				return desc, err
+			}
+			w.activeChanged = true
+		}
+		var ready sync.WaitGroup
+		var done sync.WaitGroup
+		var start atomic.Bool
+		var activated atomic.Bool
+		for i, o := range ops {
+			i, o := i, o
+			ready.Add(1)
+			done.Add(1)
+			go func() {
+				defer done.Done()
+				ready.Done()
+				for !start.Load() {
+				}
+				// sweep the relative start of the calls over the rounds
+				spin(((r * (i + 1)) % 40) * 8)
+				if duelOps[o].run(w, "x", "y") {
+					activated.Store(true)
+				}
+			}()
+		}
+		ready.Wait()
+		start.Store(true)
+		done.Wait()
+		w.activeChanged = w.activeChanged || activated.Load()
+		if err := w.invariants(); err != nil {
+			return desc, fmt.Errorf("at quiescence after round %d of %s: %v", r, desc, err)
+		}
+		if e := w.respErr.Load(); e != nil {
+			return desc, fmt.Errorf("round %d of %s: %v", r, desc, e)
+		}
+	}
+	return desc, nil
+}
+
+type duelCase struct {
+	XNormal, YNormal bool
+	StartActive      string
+	Ops              []int
+}
+
+// TestElectricDuelPairs enumerates EVERY unordered pair of the conflict-prone calls on every starting configuration
+// (which of x, y is normal, which is active), a few dozen rounds each: no pair is left to the luck of the draw.
+func TestElectricDuelPairs(t *testing.T) {
+	rounds := lib.Scale(30, 150)
+	shard, nshards := lib.Shard()
+	done := false
+	idx := 0
+	lib.Enumerate(t, "TestElectricDuelPairs", func(yield func(duelCase) bool) {
+		for _, cfg := range [][2]bool{{false, false}, {true, false}, {false, true}} {
+			for _, act := range []string{"", "x", "y"} {
+				for a := 0; a < len(duelOps); a++ {
+					for b := a; b < len(duelOps); b++ {
+						idx++
+						if idx%nshards != shard {
+							continue
+						}
+						if !yield(duelCase{cfg[0], cfg[1], act, []int{a, b}}) {
+							return
+						}
+					}
+				}
+			}
+		}
+		done = true
+	}, func(c duelCase) error {
+		desc, err := runDuel(c.XNormal, c.YNormal, c.StartActive, c.Ops, rounds)
+		if err != nil {
+			return err
+		}
+		lib.Ev.ClassN("duel rounds", int64(rounds))
+		lib.Ev.Case("duelpair|"+desc, func() any { return fmt.Sprintf("%d rounds of %s", rounds, desc) })
+		return nil
+	})
+	lib.Ev.Exhaustive(fmt.Sprintf("every unordered pair of the %d conflict-prone calls x {nobody, x, y normal} x {nothing, x, y active}, %d rounds each", len(duelOps), rounds), done)
+}
+
 func TestElectricDuels(t *testing.T) {
 	rounds := lib.Scale(150, 600)
 	rapid.Check(t, func(t *rapid.T) {
@@ -614,55 +728,9 @@ func TestElectricDuels(t *testing.T) {
 		for i := 0; i < n; i++ {
 			ops = append(ops, rapid.IntRange(0, len(duelOps)-1).Draw(t, "op"))
 		}
-		var names []string
-		for _, o := range ops {
-			names = append(names, duelOps[o].name)
-		}
-		desc := fmt.Sprintf("x(normal=%v) y(normal=%v) active=%q duel %s", xNormal, yNormal, startActive, strings.Join(names, " || "))
-		for r := 0; r < rounds; r++ {
-			w := newWorld()
-			if err := w.m.AddMode(&traits.ElectricMode{Id: "x", Normal: xNormal}); err != nil {
-				t.Fatal(err)
-			}
-			if err := w.m.AddMode(&traits.ElectricMode{Id: "y", Normal: yNormal}); err != nil {
-				t.Fatal(err)
-			}
-			if startActive != "" {
-				if _, err := w.m.ChangeActiveMode(startActive); err != nil {
-					t.Fatal(err)
-				}
-				w.activeChanged = true
-			}
-			var ready sync.WaitGroup
-			var done sync.WaitGroup
-			var start atomic.Bool
-			var activated atomic.Bool
-			for i, o := range ops {
-				i, o := i, o
-				ready.Add(1)
-				done.Add(1)
-				go func() {
-					defer done.Done()
-					ready.Done()
-					for !start.Load() {
-					}
-					// sweep the relative start of the calls over the rounds
-					spin(((r * (i + 1)) % 40) * 8)
-					if duelOps[o].run(w, "x", "y") {
-						activated.Store(true)
-					}
-				}()
-			}
-			ready.Wait()
-			start.Store(true)
-			done.Wait()
-			w.activeChanged = w.activeChanged || activated.Load()
-			if err := w.invariants(); err != nil {
-				t.Fatalf("at quiescence after round %d of %s: %v", r, desc, err)
-			}
-			if e := w.respErr.Load(); e != nil {
-				t.Fatalf("round %d of %s: %v", r, desc, e)
-			}
+		desc, err := runDuel(xNormal, yNormal, startActive, ops, rounds)
+		if err != nil {
+			t.Fatalf("%v", err)
 		}
 		lib.Ev.Class("duel")
 		lib.Ev.ClassN("duel rounds", int64(rounds))
